@@ -237,6 +237,34 @@ theorem C20_dispatch_partial (c : C) (store : List Sub) (r : Req) (rest : Queue)
   · intro h1
     simp [peer, h1]
 
+/-- … and for QoS 2 at its PUBREL: under the hypotheses of
+`C20_dispatch_partial`, a whole inbound QoS 2 exchange after the SUBACK - the
+PUBLISH, any number of repeated PUBLISHes with its identifier, the PUBREL, with
+no other inbound exchange open - invokes the request's callback, over all its
+steps together, exactly once if a granted filter matches and not at all
+otherwise. -/
+theorem C20_dispatch_qos2_partial (c : C) (store : List Sub) (r : Req) (rest : Queue) (codes : List Nat) (p : Pub)
+    (dups : List Pub)
+    (hc : c.connected = true) (hti : TI c.topics store) (hq : c.suback = r :: rest)
+    (hid : ∀ e ∈ rest, e.id ≠ r.id) (hh : ∀ e, rest.head? = some e → terminal e.state = false)
+    (hlen : r.topics.length = codes.length) (hgood : ∀ t ∈ r.topics, good t.1 = true)
+    (hfresh : ∀ e ∈ store, e.sub ≠ r.cb)
+    (hgp : good p.topic = true) (hn : validName p.topic = true) (hq2 : p.qos = 2)
+    (hin : c.pub2in = []) (hd : ∀ d ∈ dups, d.qos = 2 ∧ d.pktid = p.pktid)
+    (hno : ∀ f ∈ grantedOf (r.topics.zip codes), ∀ g ∈ grantedOf (r.topics.zip codes),
+      topicMatches f p.topic = true → topicMatches g p.topic = true → f = g) :
+    (deliveriesTo r.cb (runOuts (step c (.peer (.suback r.id codes))).1
+      (.peer (.publish p) :: dups.map (fun d => Ev.peer (.publish d)) ++ [.peer (.pubrel p.pktid)])).flatten).length =
+      (if (grantedOf (r.topics.zip codes)).any (fun f => topicMatches f p.topic) then 1 else 0) := by
+  have hc' : (step c (.peer (.suback r.id codes))).1.connected = true := step_connected c _ hc
+  have hin' : (step c (.peer (.suback r.id codes))).1.pub2in = [] := by
+    rw [step_peer c hc]
+    simp only [peer]
+    rw [(foldDone_frame subscribeDone subscribeDone_frame _ _).pub2in]
+    exact hin
+  rw [(C20_qos2_duplicates_suppressed _ hc' hin' p hq2 dups hd).1, deliveriesTo_exchange]
+  exact (C20_dispatch_partial c store r rest codes p hc hti hq hid hh hlen hgood hfresh hgp hn (by omega) hno).1
+
 /-- It is false of the code as it is (finding E9): a request with the filters
 `a/+` and `a/b` registers its callback at two trie nodes; one delivered `a/b`
 invokes it twice. -/
